@@ -40,8 +40,14 @@ func c12Label(tag string) string {
 func c12Store(nm int, symLabels, promKeys bool) (*metrics.Store, []*c12Metric) {
 	s := metrics.NewStore()
 	var out []*c12Metric
+	firstKind := 0
 	for i := 0; i < nm; i++ {
-		which := nondetRange("kind", 0, 5)
+		which := firstKind
+		if i == 0 || vParam("samename", 0) != 1 {
+			// (metrics sharing a name share a kind: the store refuses others)
+			which = nondetRange("kind", 0, 5)
+			firstKind = which
+		}
 		kind := []metrics.Kind{metrics.Counter, metrics.Gauge, metrics.Timer, metrics.Text, metrics.Histogram, metrics.Counter}[which]
 		typ := []metrics.Type{metrics.Int, metrics.Float, metrics.Int, metrics.String, metrics.Buckets, metrics.Float}[which]
 		nkeys := nondetRange("nkeys", 0, 1)
@@ -54,7 +60,16 @@ func c12Store(nm int, symLabels, promKeys bool) (*metrics.Store, []*c12Metric) {
 				keys = []string{[]string{"key_a", "key-a"}[nondetRange("keyname", 0, 1)]}
 			}
 		}
-		m := metrics.NewMetric("met-ric"+string(rune('0'+i)), "prog", kind, typ, keys...)
+		name, prog := "met-ric"+string(rune('0'+i)), "prog"
+		if vParam("samename", 0) == 1 {
+			// the same metric name declared by different programs, each with
+			// its own key (the exposition groups them into one family)
+			name, prog = "met-ric", "prog"+string(rune('0'+i))
+			if nkeys == 1 && i > 0 {
+				keys = []string{"key_b"}
+			}
+		}
+		m := metrics.NewMetric(name, prog, kind, typ, keys...)
 		m.Source = "src:1"
 		if kind == metrics.Histogram {
 			m.Buckets = []datum.Range{{0, 1}, {1, 2}, {2, math.Inf(1)}}
@@ -232,6 +247,23 @@ func HarnessC12Prom() {
 			if len(lv) != off+len(x.cm.labels[x.j]) {
 				continue
 			}
+			if off == 1 && lv[0] != x.cm.m.Program {
+				continue // another program's metric of the same name
+			}
+			if vParam("samename", 0) == 1 && off == 0 {
+				// without the prog label only the label names tell the two
+				// programs' samples apart
+				nm := vPromLabelNames(g)
+				differ := len(nm) != len(x.cm.m.Keys)
+				for q := range x.cm.m.Keys {
+					if !differ && nm[q] != x.cm.m.Keys[q] {
+						differ = true
+					}
+				}
+				if differ {
+					continue
+				}
+			}
 			same := true
 			for q := range x.cm.labels[x.j] {
 				if lv[off+q] != x.cm.labels[x.j][q] { // forks on symbolic label bytes
@@ -254,7 +286,7 @@ func HarnessC12Prom() {
 		if e.omitProgLabel {
 			vAssert(len(names) == len(x.cm.m.Keys), "C13.label-names")
 		} else {
-			vAssert(len(names) == 1+len(x.cm.m.Keys) && names[0] == "prog" && lv[0] == "prog", "C13.prog-label")
+			vAssert(len(names) == 1+len(x.cm.m.Keys) && names[0] == "prog" && lv[0] == x.cm.m.Program, "C13.prog-label")
 		}
 		for q, k := range x.cm.m.Keys {
 			vAssert(names[len(names)-len(x.cm.m.Keys)+q] == k, "C13.label-names")
